@@ -30,11 +30,12 @@ def mem (x : Nat) : List Nat → Bool
     | true => true
     | false => mem x ys
 
-/-- Reachability: the reflexive-transitive closure of the edge relation. This is the specification;
-    `reach` below is the function that computes it. -/
-inductive Reach (g : Graph) (s : Nat) : Nat → Prop
-  | refl : Reach g s s
-  | step {y z : Nat} : Reach g s y → z ∈ succ g y → Reach g s z
+/-- Reachability: the reflexive-transitive closure of the edge relation given by a successor function
+    `sc` (`succ g` for a graph `g`). This is the specification; `reach` below is the function that
+    computes it. -/
+inductive Reach (sc : Nat → List Nat) (s : Nat) : Nat → Prop
+  | refl : Reach sc s s
+  | step {y z : Nat} : Reach sc s y → z ∈ sc y → Reach sc s z
 
 /-- add to `vis` those of `ys` it does not contain yet; `nf` collects what was added -/
 def insertAll : List Nat → List Nat → List Nat → List Nat × List Nat
@@ -45,20 +46,20 @@ def insertAll : List Nat → List Nat → List Nat → List Nat × List Nat
     | false => insertAll ys (y :: vis) (y :: nf)
 
 /-- one breadth-first round: the successors of every frontier node -/
-def expand (g : Graph) : List Nat → List Nat → List Nat → List Nat × List Nat
+def expand (sc : Nat → List Nat) : List Nat → List Nat → List Nat → List Nat × List Nat
   | [], vis, nf => (vis, nf)
   | x :: xs, vis, nf =>
-    match insertAll (succ g x) vis nf with
-    | (v, n) => expand g xs v n
+    match insertAll (sc x) vis nf with
+    | (v, n) => expand sc xs v n
 
 /-- breadth-first closure: `fr` is the frontier (visited, successors not yet added), `vis` everything
     visited so far. Stops when the frontier is empty (or the fuel is, which `reach` never lets happen). -/
-def bfs (g : Graph) : Nat → List Nat → List Nat → List Nat
+def bfs (sc : Nat → List Nat) : Nat → List Nat → List Nat → List Nat
   | 0, _, vis => vis
   | _ + 1, [], vis => vis
   | f + 1, x :: fr, vis =>
-    match expand g (x :: fr) vis [] with
-    | (v, n) => bfs g f n v
+    match expand sc (x :: fr) vis [] with
+    | (v, n) => bfs sc f n v
 
 /-- number of edges -/
 def edgeCount : Graph → Nat
@@ -67,7 +68,7 @@ def edgeCount : Graph → Nat
 
 /-- the set of nodes reachable from `s` (including `s`). Every round but the last adds a node, and
     every node added is the target of an edge, so `edgeCount g + 1` rounds always suffice. -/
-def reach (g : Graph) (s : Nat) : List Nat := bfs g (edgeCount g + 1) [s] [s]
+def reach (g : Graph) (s : Nat) : List Nat := bfs (succ g) (edgeCount g + 1) [s] [s]
 
 /-! ### the same closure with the visited set kept as a bit mask
 
@@ -88,21 +89,52 @@ def insertAllM : List Nat → Nat → List Nat → Nat × List Nat
     | true => insertAllM ys vis nf
     | false => insertAllM ys (vis ||| 2 ^ y) (y :: nf)
 
-def expandM (g : Graph) : List Nat → Nat → List Nat → Nat × List Nat
+def expandM (sc : Nat → List Nat) : List Nat → Nat → List Nat → Nat × List Nat
   | [], vis, nf => (vis, nf)
   | x :: xs, vis, nf =>
-    match insertAllM (succ g x) vis nf with
-    | (v, n) => expandM g xs v n
+    match insertAllM (sc x) vis nf with
+    | (v, n) => expandM sc xs v n
 
-def bfsM (g : Graph) : Nat → List Nat → Nat → Nat
+def bfsM (sc : Nat → List Nat) : Nat → List Nat → Nat → Nat
   | 0, _, vis => vis
   | _ + 1, [], vis => vis
   | f + 1, x :: fr, vis =>
-    match expandM g (x :: fr) vis [] with
-    | (v, n) => bfsM g f n v
+    match expandM sc (x :: fr) vis [] with
+    | (v, n) => bfsM sc f n v
 
 /-- the set of nodes reachable from `s`, as a bit mask -/
-def reachM (g : Graph) (s : Nat) : Nat := bfsM g (edgeCount g + 1) [s] (toMask [s])
+def reachM (g : Graph) (s : Nat) : Nat := bfsM (succ g) (edgeCount g + 1) [s] (toMask [s])
+
+/-! ### adjacency rows in chunks
+
+Finding row `x` of a plain list costs `x` steps. The translator therefore emits the rows in chunks of
+`k` rows (node `x` is row `x % k` of chunk `x / k`), which makes a lookup cost about `n / k + k` steps.
+A chunked graph is a graph in its own right: its edge relation is `succ2 k c`, and all theorems about
+the regenerated graph are stated for that relation. -/
+
+def nthG : List Graph → Nat → Graph
+  | [], _ => []
+  | c :: _, 0 => c
+  | _ :: t, n + 1 => nthG t n
+
+/-- out-edges of node `x` of a graph given in chunks of `k` rows -/
+def succ2 (k : Nat) (c : List Graph) (x : Nat) : List Nat := succ (nthG c (x / k)) (x % k)
+
+def edgeCount2 : List Graph → Nat
+  | [] => 0
+  | g :: t => edgeCount g + edgeCount2 t
+
+def rowCount2 : List Graph → Nat
+  | [] => 0
+  | g :: t => g.length + rowCount2 t
+
+/-- reachable set of a chunked graph, as a bit mask -/
+def reachM2 (k : Nat) (c : List Graph) (s : Nat) : Nat :=
+  bfsM (succ2 k c) (edgeCount2 c + 1) [s] (toMask [s])
+
+/-- the same as a list (used by the driver to print paths) -/
+def reach2 (k : Nat) (c : List Graph) (s : Nat) : List Nat :=
+  bfs (succ2 k c) (edgeCount2 c + 1) [s] [s]
 
 /-- no element of `cs` is in the set `r` -/
 def noneIn (r : Nat) : List Nat → Bool
@@ -161,12 +193,19 @@ def rowsLt (n : Nat) : Graph → Bool
     | false => false
 
 /-- consecutive elements are joined by edges -/
-def validPath (g : Graph) : List Nat → Bool
+def validPath (sc : Nat → List Nat) : List Nat → Bool
   | [] => true
   | [_] => true
   | x :: y :: r =>
-    match mem y (succ g x) with
-    | true => validPath g (y :: r)
+    match mem y (sc x) with
+    | true => validPath sc (y :: r)
+    | false => false
+
+def rows2Lt (n : Nat) : List Graph → Bool
+  | [] => true
+  | g :: t =>
+    match rowsLt n g with
+    | true => rows2Lt n t
     | false => false
 
 def lastD : List Nat → Nat → Nat
@@ -175,7 +214,9 @@ def lastD : List Nat → Nat → Nat
 
 /-- the data the translator emits -/
 structure Model where
-  adj : Graph
+  /-- adjacency rows in chunks of `chunk` rows: node `x` is row `x % chunk` of chunk `x / chunk` -/
+  adj : List Graph
+  chunk : Nat
   numNodes : Nat
   /-- standard-library functions (never expanded) and virtual suspect leaves -/
   leaves : List Nat
@@ -197,6 +238,9 @@ structure Model where
 
 namespace Model
 
+/-- the edge relation of the emitted graph -/
+def sc (M : Model) : Nat → List Nat := succ2 M.chunk M.adj
+
 /-- everything the theorems are about: the generator functions and the per-secret slices -/
 def sources (M : Model) : List Nat := M.generators ++ M.secrets
 
@@ -205,23 +249,23 @@ def roots (M : Model) : List Nat := M.entries ++ M.sources ++ M.readerStores
 /-- the node set contains the roots and the classified nodes and is closed under the emitted edges;
     leaves have no out-edges; the translator reported success and found every kind of root -/
 def closedB (M : Model) : Bool :=
-  M.ok && Nat.beq M.adj.length M.numNodes && rowsLt M.numNodes M.adj
+  M.ok && Nat.beq (rowCount2 M.adj) M.numNodes && rows2Lt M.numNodes M.adj
   && allLt M.numNodes M.roots
   && allLt M.numNodes M.leaves && allLt M.numNodes M.cryptoRand && allLt M.numNodes M.mathRand
   && allLt M.numNodes M.seeders && allLt M.numNodes M.clock && allLt M.numNodes M.suspect
-  && allB (fun l => (succ M.adj l).isEmpty) M.leaves
+  && allB (fun l => (M.sc l).isEmpty) M.leaves
   && allIn (toMask M.leaves) (M.cryptoRand ++ M.mathRand ++ M.seeders ++ M.clock ++ M.suspect)
   && allIn (toMask M.mathRand) M.seeders
   && !M.entries.isEmpty && !M.generators.isEmpty && !M.secrets.isEmpty
 
 /-- a source draws from `crypto/rand` and from nothing reproducible -/
 def sourceOK (M : Model) (x : Nat) : Bool :=
-  match reachM M.adj x with
+  match reachM2 M.chunk M.adj x with
   | r => noneIn r M.mathRand && someIn r M.cryptoRand
 
 /-- a source neither consults the clock nor uses `crypto/rand` with a foreign reader -/
 def sourcePure (M : Model) (x : Nat) : Bool :=
-  match reachM M.adj x with
+  match reachM2 M.chunk M.adj x with
   | r => noneIn r M.clock && noneIn r M.suspect
 
 def allSourcesOK (M : Model) : Bool := allB M.sourceOK M.sources
@@ -231,7 +275,7 @@ def allSourcesPure (M : Model) : Bool := allB M.sourcePure M.sources
 def witnessOK1 (M : Model) (g : Nat) (p : List Nat) : Bool :=
   match p with
   | [] => false
-  | e :: r => mem e M.entries && Nat.beq (lastD r e) g && validPath M.adj (e :: r)
+  | e :: r => mem e M.entries && Nat.beq (lastD r e) g && validPath M.sc (e :: r)
 
 def witnessesOK (M : Model) : List Nat → List (List Nat) → Bool
   | [], [] => true
@@ -242,7 +286,7 @@ def witnessesOK (M : Model) : List Nat → List (List Nat) → Bool
 def seedPathOK (M : Model) : Bool :=
   match M.seedPath with
   | [] => true
-  | e :: r => mem e M.entries && mem (lastD r e) M.seeders && validPath M.adj (e :: r)
+  | e :: r => mem e M.entries && mem (lastD r e) M.seeders && validPath M.sc (e :: r)
 
 end Model
 
@@ -250,9 +294,9 @@ end Model
     found breadth-first, as a list of nodes. -/
 
 /-- predecessor search: the first `p` in `vis` with `x ∈ succ g p` -/
-def findPred (g : Graph) (x : Nat) : List Nat → Option Nat
+def findPred (sc : Nat → List Nat) (x : Nat) : List Nat → Option Nat
   | [] => none
-  | p :: ps => if mem x (succ g p) then some p else findPred g x ps
+  | p :: ps => if mem x (sc p) then some p else findPred sc x ps
 
 /-- the part of `r` after the first occurrence of `x` (in `reach`'s output: what was discovered before `x`) -/
 def after (x : Nat) : List Nat → List Nat
@@ -261,12 +305,12 @@ def after (x : Nat) : List Nat → List Nat
 
 /-- walk back from `x` to `s` through the reachable set `r` (newest first): a predecessor of `x`
     discovered before `x` always exists unless `x = s`; the fuel only bounds the recursion -/
-def backPath (g : Graph) (s : Nat) (r : List Nat) : Nat → Nat → List Nat → List Nat
+def backPath (sc : Nat → List Nat) (s : Nat) (r : List Nat) : Nat → Nat → List Nat → List Nat
   | 0, x, acc => x :: acc
   | f + 1, x, acc =>
     if Nat.beq x s then x :: acc else
-    match findPred g x (after x r) with
-    | some p => backPath g s r f p (x :: acc)
+    match findPred sc x (after x r) with
+    | some p => backPath sc s r f p (x :: acc)
     | none => x :: acc
 
 def firstIn (bad : List Nat) : List Nat → Option Nat
